@@ -29,6 +29,7 @@ import (
 	"slices"
 	"sort"
 	"strings"
+	"time"
 	"unsafe"
 
 	"github.com/twmb/franz-go/pkg/kgo"
@@ -110,14 +111,40 @@ func (e *InfraError) Error() string { return "VERIF-INFRA: " + e.Err.Error() }
 // member (possibly empty). A non-nil error that is not an *InfraError is a
 // property violation ("assigns nothing else": unknown or repeated member ids in
 // the sync assignments, unparsable assignments, balancer errors on valid input).
-func Run(b kgo.GroupBalancer, in Input) (plan Plan, err error) {
-	defer func() {
-		if r := recover(); r != nil {
-			plan, err = nil, fmt.Errorf("balancer panicked: %v\n%s", r, debug.Stack())
-		}
+//
+// The balancer runs on its own goroutine under a watchdog: balancing the small groups
+// generated here takes micro- to milliseconds, so a call that has not returned after
+// HangLimit of wall-clock time is reported as "produces no plan" (a violation with the
+// input as replay) instead of letting the test binary run into its global timeout, which
+// the driver could only report as inconclusive. The stuck goroutine cannot be stopped and
+// keeps spinning until the process exits.
+func Run(b kgo.GroupBalancer, in Input) (Plan, error) {
+	type res struct {
+		plan Plan
+		err  error
+	}
+	done := make(chan res, 1)
+	go func() {
+		defer func() {
+			if r := recover(); r != nil {
+				done <- res{nil, fmt.Errorf("balancer panicked: %v\n%s", r, debug.Stack())}
+			}
+		}()
+		p, err := run(b, in)
+		done <- res{p, err}
 	}()
-	return run(b, in)
+	timer := time.NewTimer(HangLimit)
+	defer timer.Stop()
+	select {
+	case r := <-done:
+		return r.plan, r.err
+	case <-timer.C:
+		return nil, fmt.Errorf("balancer %s did not return within %v for a group of %d members (it normally takes milliseconds): no plan is produced", b.ProtocolName(), HangLimit, len(in.Members))
+	}
 }
+
+// HangLimit is the wall-clock watchdog of Run.
+var HangLimit = 15 * time.Second
 
 func run(b kgo.GroupBalancer, in Input) (Plan, error) {
 	members := make([]kmsg.JoinGroupResponseMember, 0, len(in.Members))
